@@ -25,7 +25,7 @@ FLOORS = {"quick": {"steps": 100000, "sleeps": 20000, "early_sleeps": 3000, "lat
           "thorough": {"steps": 2000000, "sleeps": 400000, "early_sleeps": 60000, "late_sleeps": 40000,
                        "never_ahead_checks": 2000000, "strict_errors_expected": 6000, "strict_boundary_exact_pass": 1000,
                        "strict_checks": 800000, "syncs": 20000, "nonstrict_late_steps": 60000, "tapes_compared": 40000}}
-KEYS = tuple(FLOORS["quick"].keys()) + ("continued_after_strict_error", "huge_int_clock_cases", "steps_interrupted_in_sleep")
+KEYS = tuple(FLOORS["quick"].keys()) + ("continued_after_strict_error", "huge_int_clock_cases", "steps_interrupted_in_sleep", "second_jobs_after_idle", "runs_without_probes")
 # floors for the situations added with the later rounds of seeded changes (evidence that they were really exercised)
 FLOORS["quick"].update({'steps_interrupted_in_sleep': 15000})
 FLOORS["thorough"].update({'steps_interrupted_in_sleep': 75000})
@@ -127,7 +127,10 @@ def gen_case(rng, i):
     return {"program": prog, "factor": factor, "strict": strict, "eps": eps, "burns": burns, "syncs": syncs,
             "sync_before": rng.random() < 0.3, "start_wall": rng.choice([0, 100, 1000.5]),
             "construct_lag": rng.choice([0, 0, factor, 5 * factor]),
-            "after_error": rng.choice(["stop", "retry", "retry", "sync"])}
+            "after_error": rng.choice(["stop", "retry", "retry", "sync"]),
+            "bare": rng.random() < 0.3,
+            "second_job": None if rng.random() < 0.7 else {"idle": rng.choice([0, factor / 2, 3 * factor, 10 * factor]),
+                                                            "delay": rng.choice([0, 1, 2] if prog.get("huge_int_clock") else [0, 0.25, 1, 2])}}
 
 
 def run_case(case, stats):
@@ -158,14 +161,34 @@ def run_case(case, stats):
             stats["syncs"] += 1
         if env.factor != factor or env.strict != strict:
             bad("rt-properties-wrong", "factor/strict properties do not return the constructor arguments", None)
-        r = kern.Runner(K, prog, env=env)
+        # (without harness probes an abandoned timeout -- interrupted waiter, `timeout | event` decided by the event -- has
+        # no callback at all when it comes due)
+        r = kern.Runner(K, prog, env=env, bare=bool(case.get("bare")))
+        if case.get("bare"):
+            stats["runs_without_probes"] += 1
         r.start()
         nstep = 0
         nretry = 0
         stopped_by_strict = False
         close_to_boundary = False
+        second = dict(case.get("second_job") or {})
         while True:
             nxt = env.peek()
+            if nxt == float("inf") and second and not stopped_by_strict and env.steps <= 5000:
+                # the schedule ran empty; the caller polls it once, time passes (no sync()), then a second job is
+                # scheduled and stepped: it is paced and judged against the same real_start as everything before
+                try:
+                    env.step()
+                    bad("step-on-empty-schedule-did-not-raise", "step() on an empty schedule did not raise EmptySchedule", None)
+                except K.EmptySchedule:
+                    pass
+                except BaseException as e:
+                    bad("step-on-empty-schedule-did-not-raise", "step() on an empty schedule raised something else", repr(e)[:100])
+                clock.t += second["idle"]
+                env.timeout(second["delay"], "second-job")
+                stats["second_jobs_after_idle"] += 1
+                second = None
+                continue
             if nxt == float("inf") or env.steps > 5000:
                 break
             if nstep in case["syncs"]:
@@ -245,7 +268,7 @@ def run_case(case, stats):
     if viol:
         return viol, False
     # (a) same event sequence and values as the plain Environment
-    plain = kern.Runner(K, prog)
+    plain = kern.Runner(K, prog, bare=bool(case.get("bare")))
     plain.start()
     plain.run_to_end()
     P = [e for e in plain.tape if e[1] != "run-end"]
